@@ -27,9 +27,16 @@
        back link recorded, intermediate references `&(..)` resolved to a step of the section or
        to a closed section, step items/order/numbers, sections, text blocks), for the class
        [adoc_ok] (C01_analyse_roundtrip); composed with the printer through ParseTotal.parse_model
-       = analyse . bridge . events (C01_parse_print_partial: the class excludes mode switches;
-       with INLINE_QUANTITIES step text is cut at the quantities the converter oracle finds);
-       the metadata map is the `>>` entries inserted in order (C01_metadata_roundtrip);
+       = analyse . bridge . events (C01_parse_print_partial; with INLINE_QUANTITIES step text is cut at
+       the quantities the converter oracle finds);
+     - mode switches (MODES): [denote] follows `>> [mode]: ..` / `>> [define]: ..` / `>> [duplicate]: ..`
+       entries - components mode (a step block lists components, is no step), steps mode (every component
+       without `+` is a reference), duplicate-reference mode (a repeated name is a reference), back to
+       all / new - and the two theorems above cover them; the one switch still outside the class is
+       `text` (there the collector copies source ranges, about which the printer theorems are silent);
+       C01_modes_example switches four times and is replayed on the implementation;
+       the metadata map is the `>>` entries that are not mode switches, inserted in order
+       (C01_metadata_roundtrip, C01_metadata_entries_plain);
      - front matter: a document printed behind `---` YAML `---` yields the YAML event with exactly
        that text followed by the intended events, the same recipe (valid iff serde_yaml, an
        oracle, accepts the text) and the oracle's mapping as metadata
@@ -267,7 +274,9 @@ Print Assumptions C01_no_fence_no_frontmatter.
    the stream of C01_events_roundtrip), every case folding [ci], YAML oracle, converter oracles ([find_iq],
    [unit_class]), source text and extension record x of the pass: the collector model with the current code
    returns the recipe [denote ci d] and reports no error.  [adoc_ok] (Model/Denote.v, decidable given the
-   oracles) states the class: no `>> [..]` key while MODES is on (mode switches); with INLINE_QUANTITIES the
+   oracles) states the class: while MODES is on, a `>> [mode]`/`[define]`/`[duplicate]` entry has one of its
+   documented values (anything else is an error diagnostic of the code) and is not the switch to `text`
+   (excluded: see the header of Model/Denote.v); with INLINE_QUANTITIES the
    oracle for find_inline_quantity consumes text (it returns a strict suffix in the code; [iq_split] does not
    run out of one unit of fuel per character); with ADVANCED_UNITS every timer quantity is a number
    with a time unit; every `&(..)` is on an ingredient, without `@ - +`, and its target exists; every other
@@ -279,7 +288,7 @@ Theorem C01_analyse_roundtrip :
     map ev_proj evs = doc_events d -> Forall (fun b => block_ok cfg b = true) d ->
     adoc_ok ci find_iq unit_class x d = true ->
     Analysis.analyse ci yaml_ok find_iq unit_class input x Analysis.cfgF (abstract_events evs)
-    = Done (Some (denote ci find_iq (Analysis.x_inline x) d), true).
+    = Done (Some (denote ci find_iq (Analysis.x_inline x) (Analysis.x_modes x) d), true).
 Proof. exact analyse_denote. Qed.
 Print Assumptions C01_analyse_roundtrip.
 
@@ -295,12 +304,13 @@ Proof. exact find_def_spec. Qed.
 Print Assumptions C01_reference_target.
 
 (* Print, then parse: the whole pipeline model of CooklangParser::parse on the printed text returns the
-   denotation, valid.  Partial: the class [adoc_ok] above (front matter: section (h)). *)
+   denotation, valid.  Partial: of the printed documents without error diagnostic, the class [adoc_ok] above
+   leaves out exactly those that switch to text mode (`>> [mode]: text` with MODES on); front matter: section (h). *)
 Theorem C01_parse_print_partial :
   forall (U : N -> ucls) (cfg : pcfg) ci yaml_ok find_iq unit_class (x : Analysis.aext) (d : list block) (tp : dtape),
     doc_ok U cfg d tp = true -> adoc_ok ci find_iq unit_class x d = true ->
     ParseTotal.parse_model U cfg ci yaml_ok find_iq unit_class x (print_doc d tp)
-    = Done (Some (denote ci find_iq (Analysis.x_inline x) d), true).
+    = Done (Some (denote ci find_iq (Analysis.x_inline x) (Analysis.x_modes x) d), true).
 Proof. exact parse_print. Qed.
 Print Assumptions C01_parse_print_partial.
 
@@ -325,7 +335,7 @@ Theorem C01_parse_print_frontmatter_partial :
          (y : str) (ft : fmtape) (d : list block) (tp : dtape),
     fm_doc_ok U cfg y ft d tp = true -> adoc_ok ci find_iq unit_class x d = true ->
     ParseTotal.parse_model U cfg ci yaml_ok find_iq unit_class x (print_fm_doc y ft d tp)
-    = Done (Some (denote ci find_iq (Analysis.x_inline x) d), yaml_ok y).
+    = Done (Some (denote ci find_iq (Analysis.x_inline x) (Analysis.x_modes x) d), yaml_ok y).
 Proof. exact parse_print_fm. Qed.
 Print Assumptions C01_parse_print_frontmatter_partial.
 
@@ -343,12 +353,13 @@ Proof.
 Qed.
 Print Assumptions C01_metadata_frontmatter.
 
-(* the full statement: a denotation [den] defined on every well-formed document (mode switches) in place of
-   [denote], whose class is [adoc_ok]; with and without front matter *)
+(* the full statement: a denotation [den] that agrees with [denote] on [adoc_ok] and is returned for every
+   printed document ([denote] itself is the candidate: it states the text-mode reading too; what is missing is
+   the proof for documents that switch to text mode); with and without front matter *)
 Definition C01_full_statement (den : (str -> str) -> (str -> option (str * str)) -> (str -> N) -> Analysis.aext ->
                                      list block -> Analysis.recipe) : Prop :=
   (forall ci find_iq unit_class x d, adoc_ok ci find_iq unit_class x d = true ->
-     den ci find_iq unit_class x d = denote ci find_iq (Analysis.x_inline x) d) /\
+     den ci find_iq unit_class x d = denote ci find_iq (Analysis.x_inline x) (Analysis.x_modes x) d) /\
   (forall (U : N -> ucls) (cfg : pcfg) ci yaml_ok find_iq unit_class (x : Analysis.aext) (d : list block) (tp : dtape),
     doc_ok U cfg d tp = true ->
     ParseTotal.parse_model U cfg ci yaml_ok find_iq unit_class x (print_doc d tp)
@@ -359,20 +370,27 @@ Definition C01_full_statement (den : (str -> str) -> (str -> option (str * str))
     = Done (Some (den ci find_iq unit_class x d), yaml_ok y)).
 
 (* The metadata map (Model/MetaMap.v: the collector projected on content.metadata.map; serde_yaml values are
-   an oracle type Y with [ystr] = Value::String and the key equality [yeqb]): for a printed document whose
-   `>>` keys are not `[..]` config keys while MODES is on, it is the entries (cleaned key, trimmed value)
-   inserted in document order - a repeated key keeps its place and takes the last value. *)
+   an oracle type Y with [ystr] = Value::String and the key equality [yeqb]): for every printed document it is
+   the entries [kept_entries modes d] (cleaned key, trimmed value) inserted in document order - a repeated key
+   keeps its place and takes the last value.  [kept_entries] (Model/Denote.v) leaves out exactly the mode
+   switches: with MODES on, the `[mode]` / `[define]` / `[duplicate]` entries. *)
 Theorem C01_metadata_roundtrip :
   forall (U : N -> ucls) (cfg : pcfg) (Y : Type) (ystr : str -> Y) (yeqb : Y -> Y -> bool)
          (yaml : str -> option (list (Y * Y))) (modes : bool) (d : list block) (tp : dtape),
-    doc_ok U cfg d tp = true -> meta_plain modes d = true ->
+    doc_ok U cfg d tp = true ->
     exists evs, events U cfg (print_doc d tp) = Done evs /\
-      MetaMap.metadata_of Y ystr yeqb yaml modes evs = Some (fold_left (ins Y ystr yeqb) (meta_entries d) []).
+      MetaMap.metadata_of Y ystr yeqb yaml modes evs = Some (fold_left (ins Y ystr yeqb) (kept_entries modes d) []).
 Proof.
-  intros U cfg Y ystr yeqb yaml modes d tp Hd Hm. destruct (events_print_doc U cfg d tp Hd) as (evs & He & Hp).
-  exists evs. split; [exact He|]. exact (metadata_denote Y ystr yeqb yaml modes d evs Hp Hm).
+  intros U cfg Y ystr yeqb yaml modes d tp Hd. destruct (events_print_doc U cfg d tp Hd) as (evs & He & Hp).
+  exists evs. split; [exact He|]. exact (metadata_denote_modes Y ystr yeqb yaml modes d evs Hp).
 Qed.
 Print Assumptions C01_metadata_roundtrip.
+
+(* ... which is every `>>` entry when no key is a `[..]` key while MODES is on *)
+Theorem C01_metadata_entries_plain :
+  forall (modes : bool) (d : list block), meta_plain modes d = true -> kept_entries modes d = meta_entries d.
+Proof. exact kept_entries_plain. Qed.
+Print Assumptions C01_metadata_entries_plain.
 
 (* ------------------------------------------------------------------ examples *)
 (* the adjacency exclusions are real (implementation's classes, Gen/CharClass.v): each pair
@@ -553,11 +571,11 @@ Definition doc4 : list block :=
 Definition tape4 : dtape := {| dt_lead := []; dt_nl := fun _ => nl; dt_sep := fun n => match n with 2%nat => [([], nl)] | _ => [] end; dt_final := true |}.
 Example C01_parse_print_example :
   doc_ok Ug cfg_all doc4 tape4 = true /\ adoc_ok ufold (fun _ => None) uclass x_all doc4 = true /\
-  map Analysis.c_rel (Analysis.r_ingredients (denote ufold (fun _ => None) true doc4))
+  map Analysis.c_rel (Analysis.r_ingredients (denote ufold (fun _ => None) true true doc4))
   = [Analysis.RDef [1%nat] true; Analysis.RRef 0 Analysis.TgComponent; Analysis.RDef [] true] /\
-  map Analysis.sec_name (Analysis.r_sections (denote ufold (fun _ => None) true doc4)) = [None; Some [65]] /\
+  map Analysis.sec_name (Analysis.r_sections (denote ufold (fun _ => None) true true doc4)) = [None; Some [65]] /\
   ParseTotal.parse_model Ug cfg_all ufold (fun _ => true) (fun _ => None) uclass x_all (print_doc doc4 tape4)
-  = Done (Some (denote ufold (fun _ => None) true doc4), true).
+  = Done (Some (denote ufold (fun _ => None) true true doc4), true).
 Proof.
   assert (H1 : doc_ok Ug cfg_all doc4 tape4 = true) by (vm_compute; reflexivity).
   assert (H2 : adoc_ok ufold (fun _ => None) uclass x_all doc4 = true) by (vm_compute; reflexivity).
@@ -578,11 +596,11 @@ Definition value_qeq (a b : Events.pvalue) : Prop :=
 Example C01_values_example :
   Forall2 (fun o v => match o, v with Some a, Some b => value_qeq a b | None, None => True | _, _ => False end)
     (map (fun c => option_map Analysis.qi_value (Analysis.c_qty c))
-         (Analysis.r_ingredients (denote ufold (fun _ => None) true doc4)))
+         (Analysis.r_ingredients (denote ufold (fun _ => None) true true doc4)))
     [Some (Events.VNumber (Qmake 1 1)); None; None] /\
   Forall2 (fun o v => match o, v with Some a, Some b => value_qeq a b | None, None => True | _, _ => False end)
     (map (fun t => option_map Analysis.qi_value (Analysis.tm_qty t))
-         (Analysis.r_timers (denote ufold (fun _ => None) true doc4)))
+         (Analysis.r_timers (denote ufold (fun _ => None) true true doc4)))
     [Some (Events.VNumber (Qmake 5 1))] /\
   value_qeq (value_of (denote_value (QNum (SDec [49; 50] [53; 48])))) (Events.VNumber (Qmake 25 2)) /\
   value_of (denote_value (QRange (SMixed [49] [49] [50]) (SFrac [55] [50]))) = Events.VRange (Qmake 3 2) (Qmake 7 2).
@@ -620,7 +638,7 @@ Definition doc5 : list block :=
 Definition tape5 : dtape := {| dt_lead := []; dt_nl := fun _ => nl; dt_sep := fun n => match n with 0%nat | 1%nat => [([], nl)] | _ => [] end; dt_final := false |}.
 Example C01_intermediate_example :
   doc_ok Ug cfg_all doc5 tape5 = true /\ adoc_ok ufold (fun _ => None) uclass x_all doc5 = true /\
-  map Analysis.c_rel (Analysis.r_ingredients (denote ufold (fun _ => None) true doc5))
+  map Analysis.c_rel (Analysis.r_ingredients (denote ufold (fun _ => None) true true doc5))
   = [Analysis.RDef [] true; Analysis.RRef 0 Analysis.TgStep; Analysis.RRef 0 Analysis.TgStep;
      Analysis.RRef 0 Analysis.TgSection; Analysis.RRef 0 Analysis.TgSection].
 Proof. vm_compute. repeat split. Qed.
@@ -637,10 +655,95 @@ Definition doc6 : list block := [BkStep [IText [wd [87; 97; 105; 116]; sp; wd [9
 Definition tape6 : dtape := {| dt_lead := []; dt_nl := fun _ => nl; dt_sep := fun _ => []; dt_final := true |}.
 Example C01_inline_example :
   doc_ok Ug cfg_all doc6 tape6 = true /\ adoc_ok ufold cut33 uclass x_all doc6 = true /\
-  Analysis.r_sections (denote ufold cut33 true doc6)
+  Analysis.r_sections (denote ufold cut33 true true doc6)
   = [{| Analysis.sec_name := None;
         Analysis.sec_content := [Analysis.CStep {| Analysis.st_items := [Analysis.IText [87; 97; 105; 116; 32; 97]; Analysis.IInline 0;
                                                                          Analysis.IText [98]];
                                                    Analysis.st_number := 1 |}] |}] /\
-  Analysis.r_inline (denote ufold cut33 true doc6) = 1%nat.
+  Analysis.r_inline (denote ufold cut33 true true doc6) = 1%nat.
+Proof. vm_compute. repeat split. Qed.
+
+(* ---- mode switches: four of them in one document
+     >> [mode]: components
+     @salt{1%g} and #pot{ }
+
+     > note
+     >> [define]: steps
+     Add @salt, @+pepper and #pot.
+     >> [duplicate]: reference
+     >> [mode]: default
+     Mix @flour{1%g} then @flour{1%g} and @Salt.
+   The components-mode line is no step (salt and pot are definitions "not in a step", the text ` and ` is
+   omitted), the note stays a text block; in steps mode `@salt` and `#pot` are references, `@+pepper` a new
+   definition; after the two last switches the second `@flour` and `@Salt` (folded to `salt`) are references
+   because the name was seen, the first `@flour` a definition.  The implementation returns the same recipe for the
+   printed text (replayed with /verif/.build/target/debug/recipe, extensions all, bundled units). *)
+Definition lb : ptok := (KPunct, [91]).
+Definition rb : ptok := (KPunct, [93]).
+Definition comma : ptok := (KPunct, [44]).
+Definition dot : ptok := (KDot, [46]).
+Definition k_mode : list ptok := [sp; lb; wd [109; 111; 100; 101]; rb].
+Definition k_define : list ptok := [sp; lb; wd [100; 101; 102; 105; 110; 101]; rb].
+Definition k_duplicate : list ptok := [sp; lb; wd [100; 117; 112; 108; 105; 99; 97; 116; 101]; rb].
+Definition c_named (k : ckind) (ms : list mitem) (name : str) : cspec :=
+  {| cs_kind := k; cs_mods := ms; cs_name := [wd name]; cs_alias := None; cs_body := BWord; cs_note := None |}.
+Definition c_flour : cspec :=
+  {| cs_kind := CIgr; cs_mods := []; cs_name := [wd [102; 108; 111; 117; 114]]; cs_alias := None;
+     cs_body := BQty {| qs_val := QNum (SInt [49]); qs_lock := false; qs_unit := Some [wd [103]] |} tape0; cs_note := None |}.
+Definition doc7 : list block :=
+  [BkMeta k_mode [sp; wd [99; 111; 109; 112; 111; 110; 101; 110; 116; 115]];
+   BkStep [IComp c_salt; IText [sp; wd [97; 110; 100]; sp]; IComp c_cw];
+   BkText [{| tl_marker := true; tl_ws := [sp]; tl_toks := [wd [110; 111; 116; 101]] |}];
+   BkMeta k_define [sp; wd [115; 116; 101; 112; 115]];
+   BkStep [IText [wd [65; 100; 100]; sp]; IComp (c_named CIgr [] [115; 97; 108; 116]); IText [comma; sp];
+           IComp (c_named CIgr [MC KPlus] [112; 101; 112; 112; 101; 114]); IText [sp; wd [97; 110; 100]; sp];
+           IComp (c_named CCw [] [112; 111; 116]); IText [dot]];
+   BkMeta k_duplicate [sp; wd [114; 101; 102; 101; 114; 101; 110; 99; 101]];
+   BkMeta k_mode [sp; wd [100; 101; 102; 97; 117; 108; 116]];
+   BkStep [IText [wd [77; 105; 120]; sp]; IComp c_flour; IText [sp; wd [116; 104; 101; 110]; sp]; IComp c_flour;
+           IText [sp; wd [97; 110; 100]; sp]; IComp (c_named CIgr [] [83; 97; 108; 116]); IText [dot]]].
+Definition tape7 : dtape := {| dt_lead := []; dt_nl := fun _ => nl; dt_sep := fun n => match n with 1%nat => [([], nl)] | _ => [] end; dt_final := true |}.
+Definition rec7 : Analysis.recipe := denote ufold (fun _ => None) true true doc7.
+Example C01_modes_example :
+  doc_ok Ug cfg_all doc7 tape7 = true /\ adoc_ok ufold (fun _ => None) uclass x_all doc7 = true /\
+  map (fun c => (Analysis.c_name c, Analysis.c_rel c)) (Analysis.r_ingredients rec7)
+  = [([115; 97; 108; 116], Analysis.RDef [1%nat; 5%nat] false);
+     ([115; 97; 108; 116], Analysis.RRef 0 Analysis.TgComponent);
+     ([112; 101; 112; 112; 101; 114], Analysis.RDef [] true);
+     ([102; 108; 111; 117; 114], Analysis.RDef [4%nat] true);
+     ([102; 108; 111; 117; 114], Analysis.RRef 3 Analysis.TgComponent);
+     ([83; 97; 108; 116], Analysis.RRef 0 Analysis.TgComponent)] /\
+  map Analysis.c_rel (Analysis.r_cookware rec7) = [Analysis.RDef [1%nat] false; Analysis.RRef 0 Analysis.TgComponent] /\
+  map (fun s => map (fun c => match c with Analysis.CStep st => Some (Analysis.st_number st) | Analysis.CText _ => None end)
+                    (Analysis.sec_content s)) (Analysis.r_sections rec7) = [[None; Some 1%nat; Some 2%nat]] /\
+  ParseTotal.parse_model Ug cfg_all ufold (fun _ => true) (fun _ => None) uclass x_all (print_doc doc7 tape7)
+  = Done (Some rec7, true).
+Proof.
+  assert (H1 : doc_ok Ug cfg_all doc7 tape7 = true) by (vm_compute; reflexivity).
+  assert (H2 : adoc_ok ufold (fun _ => None) uclass x_all doc7 = true) by (vm_compute; reflexivity).
+  split; [exact H1|]. split; [exact H2|]. split; [vm_compute; reflexivity|]. split; [vm_compute; reflexivity|].
+  split; [vm_compute; reflexivity|].
+  exact (C01_parse_print_partial Ug cfg_all ufold (fun _ => true) (fun _ => None) uclass x_all doc7 tape7 H1 H2).
+Qed.
+
+(* the text-mode reading of [denote] (outside the class proved): `>> [mode]: text` then
+   `Take @salt{1[- c -]%g} now.` is one text block holding the step as written, the comment left out, and no
+   table entry.  The implementation returns that text (same replay) *)
+Definition c_salt_cm : cspec :=
+  {| cs_kind := CIgr; cs_mods := []; cs_name := salt; cs_alias := None;
+     cs_body := BQty {| qs_val := QNum (SInt [49]); qs_lock := false; qs_unit := Some [wd [103]] |}
+                     {| q_lead := []; q_after_lock := []; q_ta := {| n_gap := []; n_bs := []; n_as := [] |};
+                        q_tb := {| n_gap := []; n_bs := []; n_as := [] |}; q_bd := []; q_ad := []; q_trail := [bcm];
+                        q_after_pct := []; q_end := []; q_adv := None |}; cs_note := None |}.
+Definition doc8 : list block :=
+  [BkMeta k_mode [sp; wd [116; 101; 120; 116]];
+   BkStep [IText [wd [84; 97; 107; 101]; sp]; IComp c_salt_cm; IText [sp; wd [110; 111; 119]; dot]]].
+Example C01_text_mode_reading :
+  doc_ok Ug cfg_all doc8 tape7 = true /\
+  unlex (print_block (BkStep [IText [wd [84; 97; 107; 101]; sp]; IComp c_salt_cm; IText [sp; wd [110; 111; 119]; dot]]))
+  = [84; 97; 107; 101; 32; 64; 115; 97; 108; 116; 123; 49; 91; 45; 32; 45; 93; 37; 103; 125; 32; 110; 111; 119; 46] /\
+  denote ufold (fun _ => None) true true doc8
+  = {| Analysis.r_sections := [{| Analysis.sec_name := None;
+                                  Analysis.sec_content := [Analysis.CText [84; 97; 107; 101; 32; 64; 115; 97; 108; 116; 123; 49; 37; 103; 125; 32; 110; 111; 119; 46]] |}];
+       Analysis.r_ingredients := []; Analysis.r_cookware := []; Analysis.r_timers := []; Analysis.r_inline := 0 |}.
 Proof. vm_compute. repeat split. Qed.
